@@ -55,10 +55,10 @@ CLAIMED.update({
         technique="Coq structural induction over Expr (nested lists, repeats by fuel/count induction) against the list-monad reference semantics + structural (T2) tie through the analysis hook + enumeration of match lengths with extracted Sem", design="7/C13"),
     "C03": dict(
         text="Machine-checked (Coq, closed): inserting (?=) before or after any sub-expression, at any depth and any number of sites (relation inj, including insertion between the elements of a concatenation), preserves group numbering and the denotation of the reference semantics for every fuel, group offset and state, hence the search result and every capture group (C03_inject_sem, C03_inject_search); an expression the analysis judges easy never reaches to_str's panic arm (C03_to_str_total). Since P and inject(P) are compiled with different VM/automata splits but have the same reference meaning, any disagreement between them on the real crate is a violation: the check compares captures_from_pos of P and inject(P) at every offset for every single injection site of generated and hand-picked base trees plus random multi-site injections, and ties the set of delegated blocks (T2).",
-        note="The VM half (every split the compiler chooses is sound w.r.t. Sem: arrows A and B of DESIGN.md) is NOT proved yet; it is covered by the P-vs-inject(P) differential, the T2/T3 ties and C01/C02's reference differential. Known finding F1 (nullable unbounded repeats handed to regex-automata). inj excludes wrapping the Alt body of a look-behind (such a pattern no longer compiles).",
+        note="The VM half (every split the compiler chooses is sound w.r.t. Sem: arrows A and B of DESIGN.md) is NOT proved yet; it is covered by the P-vs-inject(P) differential, the T2/T3 ties and C01/C02's reference differential. Known finding F1 (nullable unbounded repeats handed to regex-automata). inj excludes wrapping the Alt body of a look-behind (such a pattern no longer compiles) and requires an injection into a look-behind body to keep its constant-size flag (it always does for parser-produced trees: (?=) has size 0).",
         technique="Coq induction over a custom nested induction principle for the injection relation + metamorphic differential on the real crate", design="7/C03"),
     "C05": dict(
-        text="PARTIAL. Machine-checked (Coq, closed): at the level of the reference semantics every offset and capture slot of every result of every expression stays on a character boundary within the text (C05_reference_offsets_valid); over any SearchOK search the iterators yield only valid, ordered spans and split / try_replacen never take an out-of-order, out-of-range or off-boundary slice (C05_iter_spans_valid, C05_split_no_panic, C05_replace_no_panic); the branch stack is bounded (C07_stack_bound); for compiled programs without Delegate instructions (patterns without conditionals and variable-length look-behind alternations: the scope of the C01 end-to-end theorem) the VM never reaches one of its panic sites, whatever the stack bound, backtrack limit and budget, and every capture slot it reports is unset or a character boundary inside the text (C05_vm_never_panics, C05_vm_offsets_valid). NOT proved: the same for programs with Delegate instructions or conditionals, and SearchOK's 'start at or after the search offset' — validated by running every public entry point of the real crate under catch_unwind on the unrestricted grammar over texts mixing 1-4 byte characters, with the model VM (all panic sites explicit outcomes) tied exactly (result and statistics).",
+        text="PARTIAL. Machine-checked (Coq, closed): at the level of the reference semantics every offset and capture slot of every result of every expression stays on a character boundary within the text (C05_reference_offsets_valid); over any SearchOK search the iterators yield only valid, ordered spans and split / try_replacen never take an out-of-order, out-of-range or off-boundary slice (C05_iter_spans_valid, C05_split_no_panic, C05_replace_no_panic); the branch stack is bounded (C07_stack_bound); for compiled programs without Delegate instructions (patterns without conditionals: the scope of the C01 end-to-end theorem) the VM never reaches one of its panic sites, whatever the stack bound, backtrack limit and budget, and every capture slot it reports is unset or a character boundary inside the text (C05_vm_never_panics, C05_vm_offsets_valid). NOT proved: the same for programs with Delegate instructions or conditionals, and SearchOK's 'start at or after the search offset' — validated by running every public entry point of the real crate under catch_unwind on the unrestricted grammar over texts mixing 1-4 byte characters, with the model VM (all panic sites explicit outcomes) tied exactly (result and statistics).",
         note="Known finding F-keepout-lb (\\K inside a look-behind moves the start before the search start: overlapping matches, split/replace panic) is reported as KNOWN-FINDING. Trusted: Coq kernel, extraction, harness with catch_unwind.",
         technique="Coq invariant over the reference semantics + API-layer safety over SearchOK + differential correspondence under catch_unwind", design="7/C05"),
 })
@@ -92,7 +92,7 @@ CLAIMED.update({
 })
 
 
-E2E_SCOPE = "Scope of the end-to-end theorem (stage 1 of the compiler-correctness proof): compiled programs WITHOUT a Delegate instruction (in hard context the compiler lowers everything except character classes and case-insensitive literals to VM instructions; runs of literals next to hard constructs become one Lit) and patterns without conditionals (the statement is false for them: known finding F-condleak) and without a look-behind over an alternation of different lengths (compiled as an alternation of look-behinds; the reference semantics treats the look-behind as one atomic construct). Programs with Delegate instructions, i.e. the 'regardless of which sub-expressions are handed to the automata engine' half, are decided by the differential tiers (reference differential of the real crate against the extracted reference semantics, T2 program listing, T3 exact run statistics), not by a theorem."
+E2E_SCOPE = "Scope of the end-to-end theorem (stage 1 of the compiler-correctness proof): compiled programs WITHOUT a Delegate instruction (in hard context the compiler lowers everything except character classes and case-insensitive literals to VM instructions; runs of literals next to hard constructs become one Lit) and patterns without conditionals (the statement is false for them: known finding F-condleak); look-behinds over alternations of different lengths are covered (compiled as an alternation / sequence of look-behinds, which is also how the reference semantics reads them). Programs with Delegate instructions, i.e. the 'regardless of which sub-expressions are handed to the automata engine' half, are decided by the differential tiers (reference differential of the real crate against the extracted reference semantics, T2 program listing, T3 exact run statistics), not by a theorem."
 CLAIMED.update({
     "C01": dict(
         text="PARTIAL (see scope). Machine-checked (Coq, Qed, closed under the global context), for EVERY pattern in scope, every valid UTF-8 text < 2^64 bytes, every boundary start offset, every stack bound, backtrack limit and step budget: the model of vm::run (copy-on-write state of vm.rs, bounded stack, limit) executed on the model of compile.rs's output for (?s:.)*?(RE) reports Match only with exactly the capture vector (hence span) of the reference search - the first result, in priority order, of the list-monad reference semantics - reports NoMatch only if the reference has no result, never reaches a panic site, and otherwise returns StackOverflow / BacktrackLimitExceeded (C01_vm_follows_reference). It is assembled from: compiler correctness for every construct by structural induction (seg_all: the code of ANY sub-expression arrives at its exit exactly as often, in the same order, with the same offsets and capture slots as the reference semantics lists results, keeps the auxiliary stack and foreign slots, then fails back; loops by induction on fuel/count using the C13 size soundness for progress), the bounded interpreter following the unbounded small-step machine (RunCorrect), and the C20 state refinement lifted to whole runs (run_sim). Ties: T2 (model compiler output = real compiler output incl. delegate pattern strings, analysis facts through the hook), T3 (model VM = real vm::run result and exact statistics), and the real search API against the extracted reference semantics on the generated pattern x text x offset space. " + E2E_SCOPE,
